@@ -46,11 +46,14 @@ def _serve(rfd, wfd):
         req = _recv(rfd)
         if req is None or req[0] == "quit":
             os._exit(0)
-        if req[0] == "gv":
+        if req[0] in ("gv", "clean"):
             try:
                 with warnings.catch_warnings():
                     warnings.simplefilter("ignore")
-                    gv(**req[1])
+                    if req[0] == "clean":
+                        gv.clean()
+                    else:
+                        gv(**req[1])
             except Exception:
                 pass
             _send(wfd, ("ok",))
@@ -114,6 +117,9 @@ class Pristine:
 
     def gv(self, kw):
         self.ask("gv", kw)
+
+    def clean(self):
+        self.ask("clean")
 
     def close(self):
         try:
